@@ -35,6 +35,13 @@ Theorem forwarded_default_port_refuted :
 Proof. vm_compute. discriminate. Qed.
 Print Assumptions forwarded_default_port_refuted.
 
+(* "the TCP connection is opened to the URL's ... port (80/443 when absent)" is false for the explicit port 0, which `if not port`
+   reads as absent: http://example.com:0/x is sent to port 80 (known finding C15-F5) *)
+Theorem explicit_port_zero_refuted :
+  option_map w_port (wire_of (fun _ => None) clean false (ex_url (Some 0))) = Some 80.
+Proof. vm_compute. reflexivity. Qed.
+Print Assumptions explicit_port_zero_refuted.
+
 Theorem host_header_port_rule : forall host p dp,
   (p = dp -> host_header host p dp = host_header host dp dp) /\
   (p <> dp -> host_header host p dp = host_header host dp dp ++ [COLON] ++ str_of_N p).
